@@ -5,12 +5,15 @@ C07 — line-protocol driver of the models (core only).  One op per line, one an
   s8bdec <w…>                    → vals <v…> | err             (Decode word by word)
   int <pos> <zlen> <x…>          → ok <hex bytes> | err        (Integer.Encoding; int64 bit patterns, hex)
   intdec <hex bytes>             → vals <x…> | err             (Integer.Decoding; non-library modes)
+  time <pos> <slen> <x…>         → ok <hex bytes> | err        (Time.Encoding; uint64 bit patterns, hex)
+  timedec <hex bytes>            → vals <x…> | err             (Time.Decoding; non-library modes)
 
 `zlen` is the observed length of the zstd (snappy, …) payload for the block's raw bytes: the
 library output is opaque to the model, only its length takes part in the mode decision.  In a
 library mode both sides print the frame header in hex followed by `+<payload length>`.
 -/
 import OG.C07.IntBlock
+import OG.C07.TimeBlock
 
 namespace OG.C07
 
@@ -122,6 +125,14 @@ def stepInt (pos zlen : Nat) (xs : List W) : String :=
     | t :: _ => if t.toNat / 16 = OG.Gen.C07.intCompressZSTD then showFrame 9 bs else showBytes bs
     | [] => showBytes bs
 
+def stepTime (pos slen : Nat) (xs : List W) : String :=
+  match encodeTime (dummy slen) pos xs with
+  | none => "err"
+  | some bs =>
+    match bs with
+    | t :: _ => if t.toNat / 16 = OG.Gen.C07.timeCompressSnappy then showFrame 9 bs else showBytes bs
+    | [] => showBytes bs
+
 def step (line : String) : String :=
   let (op, rest) := splitOp line
   match op with
@@ -153,6 +164,20 @@ def step (line : String) : String :=
     | none => "bad-op"
     | some bs =>
       match decodeInt (fun _ => none) bs with
+      | none => "err"
+      | some xs => showVals "vals" (xs.map (·.toNat))
+  | "time" =>
+    match takeNats 2 rest with
+    | some ([p, z], r) =>
+      match (hexWords? r).bind w64s? with
+      | some xs => stepTime p z xs
+      | none => "bad-op"
+    | _ => "bad-op"
+  | "timedec" =>
+    match hexBytes? rest with
+    | none => "bad-op"
+    | some bs =>
+      match decodeTime (fun _ => none) bs with
       | none => "err"
       | some xs => showVals "vals" (xs.map (·.toNat))
   | _ => "bad-op"
